@@ -16,8 +16,6 @@ package main
 import (
 	"encoding/json"
 	"fmt"
-	"os"
-	"runtime/debug"
 	"strconv"
 
 	"github.com/bluenviron/gortsplib/v5/pkg/headers"
@@ -108,22 +106,16 @@ func replay(run *evid.Run, enumerated map[string]bool) {
 	run.Finish()
 }
 
-var stopProf = func() {}
-
 func main() {
 	run := evid.New("C09", "exploration")
 	run.MaxVio = 40
-	// millions of short-lived allocations by 16 workers on a small live heap: collect by heap size, not by growth ratio
-	if os.Getenv("C09_NOGCSET") == "" {
-		debug.SetGCPercent(400)
-	}
 	thorough := run.Thorough()
 
 	run.Rule("three exhaustive enumerations, no sampling. (1) round trip: full product of per-field menus of well-formed values per header " +
-		"(Transport: profile x protocol x delivery{nil,uni,multi} x source x destination x 4 port-pair fields{nil + pairs over 0/1/65534/65535} x ttl{nil,0,1,255} x ssrc{nil,0,1,2^32-1} x mode{nil,play,record}; " +
+		"(Transport: profile x protocol x delivery{nil,uni,multi} x source x destination x 4 port-pair fields{nil + 2 pairs; thorough nil + 4 pairs} x ttl{nil,0,1,255} x ssrc{nil,0,1,0x01020304,2^32-1} x mode{nil,play,record}, and profile x protocol x delivery x the 4 port-pair fields{nil + 4 pairs; thorough nil + all 16 pairs over 0/1/65534/65535}; " +
 		"Transports lists of 1..3; Session ids x timeouts; Range: NPT every millisecond 0..200000 ms (thorough 1000000) as start / as end / with time=, hour-scale values, SMPTE times x frames x subframes x ends, UTC incl. year 1 and 9999 and non-UTC locations; " +
 		"RTP-Info 1..3 entries x optional fields; WWW-Authenticate / Authorization Basic and Digest x every optional field x string and password menus; MIKEY: every CSB id x CS-ID map of 0..3 entries x every payload variant alone, plus all sequences of 2..3 (thorough 4) payloads over 2 variants per kind; KeyMgmt = URL menu x MIKEY menu); " +
-		"(2) key order: every sequence of 1..3 (thorough 4; Range/RTP-Info/KeyMgmt/Session always 4) distinct key fragments from a per-header menu of valid, invalid, conflicting, duplicated and unknown keys, two-entry lists, and the marshalled sub-menu, each parsed under all k! key orders (k<=4; for k>4: sorted, reversed, each key first, each key last, all transpositions) x 3 repetitions, then 32 times under Go's native map order; " +
+		"(2) key order: every sequence of 1..3 (thorough 4; Session always 4) distinct key fragments from a per-header menu of valid, invalid, conflicting, duplicated and unknown keys, two-entry lists, and the marshalled sub-menu, each parsed under all k! key orders (k<=4; for k>4: sorted, reversed, each key first, each key last, all transpositions) x 3 repetitions, then 16 (thorough 32) times under Go's native map order; " +
 		"(3) totality: every prefix, every suffix and every substitution of <=1 (thorough <=2) positions by {00 ; = , \" SP - : FF} of every string of the marshalled sub-menu (MIKEY: payload-type/length/limit bytes), parsed under sorted and reversed key order. " +
 		"non-trivial = round trip: distinct marshalled form; key order: distinct input with >= 2 keys in one loop; totality: distinct mutated string. distinct outcome = distinct (header, marshalled form | parse result | error text)")
 	run.Assume("equality of values: reflect.DeepEqual, or equal canonical dumps in which a nil and an empty slice are the same and a time.Time is the instant it denotes (location ignored)")
@@ -167,43 +159,30 @@ func main() {
 	{
 		n, g := transportGen(thorough)
 		rtRun(run, cTransport, n, g)
-		memNote("cTransport")
-		if thorough {
-			n, g = transportGenPairs()
-			rtRun(run, cTransport, n, g)
-		memNote("cTransport")
-		}
+		n, g = transportGenPairs(thorough)
+		rtRun(run, cTransport, n, g)
 		n, g = transportsGen()
 		rtRun(run, cTransports, n, g)
-		memNote("cTransports")
 		n, g = sessionGen()
 		rtRun(run, cSession, n, g)
-		memNote("cSession")
 		maxMs := 200000
 		if thorough {
 			maxMs = 1000000
 		}
 		n, g = nptSweepGen(maxMs)
 		rtRun(run, cRange, n, g)
-		memNote("cRange")
 		misc := rangeMiscSpecs()
 		rtRun(run, cRange, len(misc), func(i int) spec { return misc[i] })
-		memNote("cRange")
 		n, g = rtpInfoGen(thorough)
 		rtRun(run, cRTPInfo, n, g)
-		memNote("cRTPInfo")
 		n, g = authenticateGen()
 		rtRun(run, cAuthenticate, n, g)
-		memNote("cAuthenticate")
 		n, g = authorizationGen()
 		rtRun(run, cAuthorization, n, g)
-		memNote("cAuthorization")
 		mm := mikeyMenu(thorough)
 		rtRun(run, cMikey, len(mm), func(i int) spec { return mm[i] })
-		memNote("cMikey")
 		km := keyMgmtMenu()
 		rtRun(run, cKeyMgmt, len(km), func(i int) spec { return km[i] })
-		memNote("cKeyMgmt")
 		rt := map[string]any{}
 		for name, c := range rtCount {
 			rt[name] = map[string]int64{"cases": c.cases.Load(), "not_round_tripping": c.failing.Load()}
@@ -218,7 +197,6 @@ func main() {
 	ost := orderPhase(run, thorough, sub, enumerated)
 	run.Set("order_phase", map[string]any{"inputs": ost.inputs, "inputs_with_2+_keys": ost.multiKey, "accepted": ost.accepted, "rejected": ost.rejected,
 		"order_dependent_inputs": ost.dependent, "parses": ost.parses.Load(), "max_keys_in_one_loop": ost.maxKeys})
-	stopProf()
 	fmt.Printf("phase 2 (key order) done at %.1fs: %d inputs, %d order-dependent\n", run.Elapsed().Seconds(), ost.inputs, ost.dependent)
 
 	// ---- phase 3: totality --------------------------------------------------------------------
